@@ -138,7 +138,9 @@ def c_per_member(P):
         lab = mi["lab"]
         skip_label = z3.Or(lab(z3.StringVal("property")), z3.And(lab(z3.StringVal("class-attribute")), z3.Not(lab(z3.StringVal("instance-attribute")))))
         init_false = z3.And(fa_keys["init"], fa_vals["init"].z == z3.StringVal("False"))
-        produces = z3.And(is_attr, z3.Not(mi["ann_none"]), z3.Not(skip_label), z3.Not(sentinel), z3.Not(init_false))
+        # class variables are no fields: a subscripted ClassVar[...] is unwrapped and labelled by the visitor (skip_label), a bare `ClassVar` annotation is still there
+        bare_classvar = z3.And(z3.Not(mi["ann_none"]), z3.Or(mi["ann_path"] == z3.StringVal("typing.ClassVar"), mi["ann_path"] == z3.StringVal("typing_extensions.ClassVar")))
+        produces = z3.And(is_attr, z3.Not(mi["ann_none"]), z3.Not(skip_label), z3.Not(bare_classvar), z3.Not(sentinel), z3.Not(init_false))
         P_.prove("at_most_one_parameter_per_member", len(params) <= 1)
         P_.prove("member_yields_parameter_iff_table", produces == (len(params) == 1), produced=len(params))
         P_.prove("kw_only_flag_flips_only_on_sentinel", zbool(kw_out) == z3.Or(kw_in, z3.And(is_attr, z3.Not(mi["ann_none"]), z3.Not(skip_label), sentinel)))
@@ -291,6 +293,6 @@ def bounded_checks(tier, seed):
         raise RuntimeError("bounded C18 sweep crashed: " + r.stderr[-1500:])
     d = json.loads(r.stdout.strip().splitlines()[-1])
     return [{"check": "dataclass_hierarchies", "tool": "generated dataclass definitions: static load vs. executing dataclasses (inspect.signature of the generated __init__)",
-             "bound": "15 field forms x 5 decorator forms, 1-2 fields per class; 2-level hierarchies (7x7 forms, 4x4 decorators, re-declared or new field); special shapes incl. a plain class between two dataclasses",
+             "bound": "17 field forms (incl. bare ClassVar) x 5 decorator forms, 1-2 fields per class; 2-level hierarchies (7x7 forms, 4x4 decorators, re-declared or new field; InitVar / ClassVar fields of the base under 4x4 decorators); special shapes incl. a plain class between two dataclasses",
              "cases": d["cases"], "rejected_by_cpython": d["rejected_by_cpython"], "failing": len(d["bad"]), "wall_s": round(time.time() - t0, 1),
              "class_match": True, "violations": d["bad"]}]
